@@ -6,6 +6,9 @@ From RPFT Require Import Base.Sexp Base.PyStr Base.PyStrFacts Base.Result Gen.Ta
      Comp.RefineStore Comp.RefineEdge Comp.RefineGroup Comp.RefineStep.
 Import ListNotations.
 
+Section WithNames.
+Context {GN : GenNames}.
+
 (* what run_rows does with one row *)
 Definition rstep (sr : st) (heads : list str) (r : row) : option (st * list str) :=
   match r_type r with
@@ -33,6 +36,8 @@ Hypothesis fresh_inj : forall a b, fresh a = fresh b -> a = b.
 Hypothesis fresh_not_sentinel : forall k, fresh k <> hard_exit_sentinel.
 Variable GP : id -> Prop.
 Hypothesis GP_ns : forall u, GP u -> u <> hard_exit_sentinel.
+(* what the input encoding says of a given `_nodeId` is enough for GP *)
+Hypothesis HGP : forall (u : str) (nm : str), (nm = u /\ u <> hard_exit_sentinel) -> GP u.
 
 Lemma csource_push sc hs e : csource (set_stack_heads sc ([] :: cs_stack sc) hs) e = csource sc e.
 Proof. unfold csource. cbn. destruct (e_from e); reflexivity. Qed.
@@ -56,18 +61,69 @@ Qed.
 (* one row *)
 Lemma row_sim phi sr sc cr heads sr1 heads1 sc1 :
   Sim phi sr sc -> StOK fresh GP sc -> cs_heads sc = heads -> row_ok cr ->
-  rstep sr heads (cr_row cr) = Some (sr1, heads1) -> cstep fresh sc cr = Ok sc1 ->
+  rstep sr heads (cr_row cr) = Some (sr1, heads1) -> cstep_read fresh sc cr = Ok sc1 ->
   exists phi1, Sim phi1 sr1 sc1 /\ cs_heads sc1 = heads1 /\ phi_le phi phi1.
 Proof.
   intros Hsim Hst Hh Hok Hr Hc. unfold rstep in Hr.
   destruct (r_type (cr_row cr)) as [cls payloads dec0|tgts| | | | |] eqn:Et.
   - (* node rows *)
     destruct (step_row nab sr (cr_row cr)) as [s'|] eqn:Es; [|discriminate]. injection Hr as <- <-.
-    destruct (node_row_sim fresh fresh_inj fresh_not_sentinel GP GP_ns phi sr sc cr cls payloads dec0 s' sc1 Hsim Hst Hok Et Es Hc) as (phi1 & H1 & H2 & H3 & _).
-    exists phi1. split; [exact H1|]. split; [congruence|exact H3].
+    destruct Hok as (Hedges & Henc & Hrow). rewrite Et in Hrow. destruct Hrow as (-> & -> & Hacts).
+    unfold step_row in Es. unfold cstep_read in Hc. rewrite Et in Es, Hc.
+    set (kind := cr_kind cr) in *.
+    change (match (if is_basic_kind kind then match payloads with p :: _ => Some p | [] => None end else None) with
+            | Some p => ([(fresh (cs_next sc), p)], S (cs_next sc)) | None => ([], cs_next sc) end)
+      with (row_acts fresh sc kind payloads) in Hc.
+    destruct (row_acts fresh sc kind payloads) as [acts n1] eqn:Eacts.
+    destruct (row_acts_ok fresh sc kind payloads acts n1 Hacts Eacts) as (Haok & Hn1 & Hbelow & Hfresh).
+    assert (Hgiven : cr_uuid cr <> [] -> GP (cr_uuid cr)) by (intros Hne; apply (HGP _ (r_node_name (cr_row cr))), Henc, Hne).
+    assert (Hname : or_default (cr_uuid cr) (r_node_name (cr_row cr)) = r_node_name (cr_row cr)).
+    { unfold or_default. destruct (cr_uuid cr) as [|a u] eqn:Eu; [reflexivity|]. symmetry. apply Henc. discriminate. }
+    rewrite Hname in Hc.
+    (* which branch: the same on both sides *)
+    assert (Hra : (if is_basic_kind kind then match payloads with p :: _ => Some p | [] => None end else None) = None
+                  <-> merge_actions (kind_cls kind) payloads = []).
+    { destruct kind; cbn; try tauto; destruct payloads; split; intros; congruence. }
+    assert (Hnew : ref_new sr (cr_row cr) (kind_cls kind) payloads (kind_dec0 kind) = Some s' ->
+                   comp_new fresh sc cr acts n1 payloads = Ok sc1 ->
+                   exists phi1, Sim phi1 s' sc1 /\ cs_heads sc1 = cs_heads sc /\ phi_le phi phi1).
+    { intros R1 R2. destruct (new_node_sim fresh fresh_inj fresh_not_sentinel GP GP_ns phi sr sc cr payloads acts n1 s' sc1
+                               Hsim Hst Hedges Hgiven Hname Haok Hn1 Hbelow Hfresh R1 R2) as (phi1 & H1 & H2 & H3 & _).
+      exists phi1. auto. }
+    assert (G : exists phi1, Sim phi1 s' sc1 /\ cs_heads sc1 = cs_heads sc /\ phi_le phi phi1);
+      [|destruct G as (phi1 & H1 & H2 & H3); exists phi1; split; [exact H1|split; [congruence|exact H3]]].
+    pose proof (sim_names _ _ _ Hsim (r_node_name (cr_row cr))) as Hnames.
+    destruct (r_node_name (cr_row cr)) as [|a nm] eqn:En.
+    + (* no node name *)
+      apply Hnew; [unfold ref_new; rewrite En; exact Es|].
+      unfold comp_new. rewrite En, Hname. destruct (if is_basic_kind kind then _ else None); exact Hc.
+    + specialize (Hnames ltac:(discriminate)).
+      destruct (alookup (s_names sr) (a :: nm)) as [k|] eqn:Ek.
+      * destruct Hnames as (c & Hck & Ecn). rewrite Ecn in Hc.
+        destruct (merge_actions (kind_cls kind) payloads) as [|p0 ps0] eqn:Em.
+        -- (* a node of that name exists, but the row brings no action to merge: a node of its own *)
+           apply Hnew; [unfold ref_new; rewrite En; exact Es|].
+           unfold comp_new. rewrite En, Hname. rewrite (proj2 Hra eq_refl) in Hc. exact Hc.
+        -- (* merged *)
+           destruct (if is_basic_kind kind then match payloads with p :: _ => Some p | [] => None end else None) as [p|] eqn:Era.
+           2:{ pose proof (proj1 Hra eq_refl) as Hx. discriminate Hx. }
+           assert (Hmap : map snd acts = payloads).
+           { unfold kind in *. destruct (cr_kind cr); cbn in Era; try discriminate; exact Haok. }
+           assert (Hpay : p0 :: ps0 = payloads).
+           { unfold kind in *. destruct (cr_kind cr); cbn in Era, Em; try discriminate; symmetry; exact Em. }
+           destruct (r_edges (cr_row cr)) as [|e [|e2 es]]; try discriminate.
+           destruct (negb (cond_blank (e_cond e))); [discriminate|].
+           destruct (source_group sr e) as [[g|]|] eqn:Esrc; try discriminate.
+           destruct (merge_row_sim fresh fresh_inj GP phi sr sc k (fst c) e g acts n1 payloads (r_id (cr_row cr)) s' sc1 Hsim Hst
+                       ltac:(exists c; auto) Hmap Hn1 Hbelow Hfresh Esrc) as [H1 H2]; [exact Es|exact Hc|].
+           exists phi. split; [exact H1|split; [exact H2|apply phi_le_refl]].
+      * (* no node of that name yet *)
+        rewrite Hnames in Hc.
+        apply Hnew; [unfold ref_new; rewrite En; exact Es|].
+        unfold comp_new. rewrite En, Hname. destruct (if is_basic_kind kind then _ else None); exact Hc.
   - (* go_to *)
     destruct (step_row nab sr (cr_row cr)) as [s'|] eqn:Es; [|discriminate]. injection Hr as <- <-.
-    unfold step_row in Es. unfold cstep in Hc. rewrite Et in Es, Hc.
+    unfold step_row in Es. unfold cstep_read in Hc. rewrite Et in Es, Hc.
     destruct (negb _) eqn:En in Es; [discriminate|]. rewrite En in Hc.
     destruct Hok as [Hedges _].
     match type of Hc with foldM _ ?l0 _ = _ => set (l := l0) in * end.
@@ -77,24 +133,24 @@ Proof.
     exists phi1. split; [exact H1|]. split; [congruence|exact H3].
   - (* no_op *)
     destruct (step_row nab sr (cr_row cr)) as [s'|] eqn:Es; [|discriminate]. injection Hr as <- <-.
-    unfold step_row in Es. unfold cstep in Hc. rewrite Et in Es, Hc. destruct Hok as [Hedges _].
+    unfold step_row in Es. unfold cstep_read in Hc. rewrite Et in Es, Hc. destruct Hok as [Hedges _].
     exists phi. split; [eapply noop_row_sim; eauto|]. split; [|apply phi_le_refl].
     unfold cparse_noop in Hc. destruct (foldM _ _ []) as [ps|x]; [|discriminate]. injection Hc as <-. exact Hh.
   - (* hard_exit *)
     destruct (step_row nab sr (cr_row cr)) as [s'|] eqn:Es; [|discriminate]. injection Hr as <- <-.
-    unfold step_row in Es. unfold cstep in Hc. rewrite Et in Es, Hc. destruct Hok as [Hedges _].
+    unfold step_row in Es. unfold cstep_read in Hc. rewrite Et in Es, Hc. destruct Hok as [Hedges _].
     destruct (exit_rows_sim fresh fresh_inj fresh_not_sentinel GP phi sr sc _ DHard sentinel_dst s' sc1 Hsim Hst Hedges) as (phi1 & H1 & H2 & H3); auto.
     + reflexivity.
     + exists phi1. split; [exact H1|]. split; [congruence|exact H3].
   - (* loose_exit *)
     destruct (step_row nab sr (cr_row cr)) as [s'|] eqn:Es; [|discriminate]. injection Hr as <- <-.
-    unfold step_row in Es. unfold cstep in Hc. rewrite Et in Es, Hc. destruct Hok as [Hedges _].
+    unfold step_row in Es. unfold cstep_read in Hc. rewrite Et in Es, Hc. destruct Hok as [Hedges _].
     destruct (exit_rows_sim fresh fresh_inj fresh_not_sentinel GP phi sr sc _ DNone None s' sc1 Hsim Hst Hedges) as (phi1 & H1 & H2 & H3); auto.
     + exact I.
     + exists phi1. split; [exact H1|]. split; [congruence|exact H3].
   - (* begin_block *)
     destruct (step_row nab sr (cr_row cr)) as [s'|] eqn:Es; [|discriminate]. injection Hr as <- <-.
-    unfold step_row in Es. unfold cstep in Hc. rewrite Et in Es, Hc. destruct Hok as [Hedges _].
+    unfold step_row in Es. unfold cstep_read in Hc. rewrite Et in Es, Hc. destruct Hok as [Hedges _].
     set (is_start := match r_edges (cr_row cr) with [e] => match e_from e with FStart => true | _ => false end | _ => false end) in *.
     pose proof (Sim_with_stack phi sr sc ([] :: cs_stack sc) (r_id (cr_row cr) :: cs_heads sc) Hsim) as Hs0.
     rewrite <- (sim_stack _ _ _ Hsim) in Hs0 at 1.
@@ -110,7 +166,7 @@ Proof.
       exact G.
   - (* end_block *)
     destruct heads as [|h heads']; [discriminate|]. rewrite (sim_stack _ _ _ Hsim) in Hr.
-    unfold cstep in Hc. rewrite Et, Hh in Hc.
+    unfold cstep_read in Hc. rewrite Et, Hh in Hc.
     destruct (cs_stack sc) as [|members outer] eqn:Estk; [discriminate|]. injection Hr as <- <-. injection Hc as <-.
     exists phi. split; [|split; [reflexivity|apply phi_le_refl]].
     assert (G := Sim_add_group phi _ _ (GBlock members) (CGBlock members) h (Sim_with_stack phi sr sc outer heads' Hsim) (GS_block _ _ members)
@@ -122,7 +178,7 @@ Qed.
 Theorem run_sim rows : forall phi sr sc heads sr' sc',
   Forall row_ok rows -> (forall cr, In cr rows -> cr_uuid cr <> [] -> GP (cr_uuid cr)) ->
   Sim phi sr sc -> Inv fresh GP sc -> cs_heads sc = heads ->
-  run_rows nab (map cr_row rows) sr heads = Some sr' -> foldM (cstep fresh) rows sc = Ok sc' ->
+  run_rows nab (map cr_row rows) sr heads = Some sr' -> foldM (cstep_read fresh) rows sc = Ok sc' ->
   exists phi', Sim phi' sr' sc' /\ Inv fresh GP sc' /\ cs_heads sc' = [] /\ phi_le phi phi'.
 Proof.
   induction rows as [|cr rest IH]; intros phi sr sc heads sr' sc' Hok Hgiven Hsim Hinv Hh; cbn [map foldM].
@@ -130,11 +186,12 @@ Proof.
     split; [exact Hsim|]. split; [exact Hinv|]. split; [exact Hh|apply phi_le_refl].
   - rewrite run_rows_cons. inversion Hok as [|? ? Hcr Hrest]; subst.
     destruct (rstep sr (cs_heads sc) (cr_row cr)) as [[s1 h1]|] eqn:Er; [|discriminate].
-    destruct (cstep fresh sc cr) as [c1|x] eqn:Ec; [|discriminate]. intros H1 H2.
+    destruct (cstep_read fresh sc cr) as [c1|x] eqn:Ec; [|discriminate]. intros H1 H2.
     destruct (row_sim phi sr sc cr _ s1 h1 c1 Hsim (inv_st _ _ _ Hinv) eq_refl Hcr Er Ec) as (phi1 & S1 & E1 & L1).
     destruct (IH phi1 s1 c1 h1 sr' sc' Hrest) as (phi2 & S2 & I2 & E2 & L2); auto.
     + intros cr0 Hin. apply Hgiven. right. exact Hin.
-    + eapply (cstep_ok fresh GP fresh_inj); eauto. apply Hgiven. left. reflexivity.
+    + eapply (cstep_read_ok fresh GP fresh_inj); eauto. apply Hgiven. left. reflexivity.
     + exists phi2. split; [exact S2|]. split; [exact I2|]. split; [exact E2|eapply phi_le_trans; eauto].
 Qed.
 End Run.
+End WithNames.
